@@ -10,9 +10,9 @@
     [feeds], [has_cycle], [comp_holds], [rhs_spec]): Spec.v.  (First part: ../core/PropsC02.v, the sorter.) *)
 From Coq Require Import ZArith List Bool Permutation Relations.
 From MxlBase Require Import ListX.
-From Core Require Import Sort GenSortFacts GenCacheFacts Model Cache Query.
+From Core Require Import Sort GenSortFacts GenCacheFacts Model Cache Query CacheHist.
 From Core Require FnLib.
-From CoreP Require Import Spec ProofsTop ProofsUnique ProofsPerm ProofsGraph ExModel ExPerm.
+From CoreP Require Import Spec ProofsTop ProofsUnique ProofsPerm ProofsGraph ExModel ExPerm ProofsHist.
 Import ListNotations.
 
 (** the facts the lemmas below are instantiated with: the regenerated sorter facts, and the
@@ -192,3 +192,120 @@ Proof.
   vm_compute; reflexivity.
 Qed.
 Print Assumptions C02b_nonvacuous.
+
+(** ------------------------------------------------------------------------------------------------
+    Closing round: MIXTURES of bad-graph kinds, and HISTORIES (what a process did before).
+    [create_cache] is a function of the model's content: the shipped code has no state besides the
+    model, so an answer cannot depend on earlier constructions.  The theorems below say what that
+    buys on the two shapes of seeded changes C02-7 / C02-8, whose executable models are the
+    regression variants of ../core/CacheHist.v (NOT the shipped code). *)
+
+(** "A component naming something that does not exist is rejected with a missing-dependency error
+    that lists exactly those names" -- ALSO when the graph has cycles (e.g. a component naming itself) *)
+Theorem C02_mixture_missing_reported :
+  forall fsem fsemN m,
+    names_missing m -> has_cycle m ->
+    create_cache fsem fsemN gen_sort_facts m
+    = Err (EMissing (not_solvable (base_available m) (map dep_of (to_sort m))))
+    /\ not_solvable (base_available m) (map dep_of (to_sort m)) <> [].
+Proof. exact (mixture_missing_reported gen_sort_facts gen_chk gen_sc). Qed.
+Print Assumptions C02_mixture_missing_reported.
+
+(** regression (seeded C02-7): an early "does a component list its own name" test in the sanity loop of
+    [_create_cache], before the sorter.  Where it is harmless (complete graph, no readout naming itself:
+    it anticipates the sorter's verdict) ... *)
+Theorem C02_early_self_check_partial :
+  forall fsem fsemN m,
+    WF m -> Complete (base_available m) (map dep_of (to_sort m)) -> readout_names_itself m = false ->
+    create_cache_selfcheck fsem fsemN gen_sort_facts m = create_cache fsem fsemN gen_sort_facts m.
+Proof. exact (selfcheck_agrees_on_complete gen_sort_facts gen_chk gen_sc). Qed.
+Print Assumptions C02_early_self_check_partial.
+
+(** ... and where it breaks the property: on EVERY model that names a missing thing and in which an initial
+    assignment, derived quantity or reaction lists its own name, the circular error hides the missing names
+    (the shipped code never answers Circular there); witnesses: one component naming itself AND the missing 99,
+    and a self-reference next to ANOTHER component naming 99 *)
+Theorem C02_early_self_check_refuted :
+  (forall fsem fsemN m,
+     names_missing m -> names_itself m = true ->
+     create_cache_selfcheck fsem fsemN gen_sort_facts m = Err ECircular
+     /\ create_cache fsem fsemN gen_sort_facts m <> Err ECircular)
+  /\ names_missing ex_mix_same /\ names_itself ex_mix_same = true
+  /\ create_cache FnLib.fsem FnLib.fsemN gen_sort_facts ex_mix_same = Err (EMissing [(6%N, [99%N])])
+  /\ create_cache_selfcheck FnLib.fsem FnLib.fsemN gen_sort_facts ex_mix_same = Err ECircular
+  /\ names_missing ex_mix_other /\ names_itself ex_mix_other = true
+  /\ create_cache FnLib.fsem FnLib.fsemN gen_sort_facts ex_mix_other = Err (EMissing [(7%N, [99%N])])
+  /\ create_cache_selfcheck FnLib.fsem FnLib.fsemN gen_sort_facts ex_mix_other = Err ECircular.
+Proof.
+  split; [exact (selfcheck_hides_missing gen_sort_facts gen_chk gen_sc)|].
+  split; [exact ex_mix_same_missing|]. split; [vm_compute; reflexivity|].
+  split; [vm_compute; reflexivity|]. split; [vm_compute; reflexivity|].
+  split; [exact ex_mix_other_missing|]. split; [vm_compute; reflexivity|].
+  split; vm_compute; reflexivity.
+Qed.
+Print Assumptions C02_early_self_check_refuted.
+
+(** regression (seeded C02-8): a process-wide memo of sorted orders keyed by the components only.  The first
+    construction of a process, and every construction whose components are not in the memo, is the shipped one ... *)
+Theorem C02_memo_miss_is_shipped_partial :
+  forall fsem fsemN m,
+    fst (create_cache_memo fsem fsemN gen_sort_facts [] m) = create_cache fsem fsemN gen_sort_facts m
+    /\ forall mm, memo_find (memo_key (map dep_of (to_sort m))) mm = None ->
+                  fst (create_cache_memo fsem fsemN gen_sort_facts mm m) = create_cache fsem fsemN gen_sort_facts m.
+Proof.
+  exact (fun fsem fsemN m => conj (create_cache_memo_fresh fsem fsemN gen_sort_facts m)
+                                  (fun mm => create_cache_memo_miss fsem fsemN gen_sort_facts mm m)).
+Qed.
+Print Assumptions C02_memo_miss_is_shipped_partial.
+
+(** ... but a hit forgets what is available: build the cache of ExModel, remove_parameter(1), build again.  The
+    content now names the missing 1 (shipped: the missing-dependency error listing it per component, in element
+    order); with the memo the stale order is evaluated and a bare KeyError escapes. *)
+Theorem C02_memo_forgetting_available_refuted :
+  exists c mm,
+    create_cache_memo FnLib.fsem FnLib.fsemN gen_sort_facts [] ex_model = (Val c, mm)
+    /\ names_missing (remove_par 1%N ex_model)
+    /\ create_cache FnLib.fsem FnLib.fsemN gen_sort_facts (remove_par 1%N ex_model)
+       = Err (EMissing [(4%N, [1%N]); (2%N, [1%N]); (6%N, [1%N])])
+    /\ fst (create_cache_memo FnLib.fsem FnLib.fsemN gen_sort_facts mm (remove_par 1%N ex_model)) = Err EKey.
+Proof.
+  eexists. eexists. split; [vm_compute; reflexivity|]. split; [exact ex_removed_missing|].
+  split; vm_compute; reflexivity.
+Qed.
+Print Assumptions C02_memo_forgetting_available_refuted.
+
+(** histories, positively and for ALL models: remove a plain parameter / a plain variable (its stoichiometric
+    entries go with it) / a data set from a well-formed model.  If a component of what remains names it, the
+    shipped construction answers with the missing-dependency error -- whatever was built or asked before the
+    removal, [create_cache] has no other input than the content -- and the payload lists that component with
+    the removed name.  (Not assumed: that the cache of [m] was built, or that [m] was complete.) *)
+Theorem C02_removed_base_quantity_is_reported :
+  forall fsem fsemN m k p nm cmp,
+    WF m -> is_base k p m ->
+    In (nm, cmp) (to_sort (remove_base k p m)) -> In p (comp_args cmp) ->
+    create_cache fsem fsemN gen_sort_facts (remove_base k p m)
+    = Err (EMissing (not_solvable (base_available (remove_base k p m)) (map dep_of (to_sort (remove_base k p m)))))
+    /\ exists l, In (nm, l) (not_solvable (base_available (remove_base k p m)) (map dep_of (to_sort (remove_base k p m))))
+                 /\ In p l.
+Proof. exact (removed_base_reported gen_sort_facts gen_chk gen_sc). Qed.
+Print Assumptions C02_removed_base_quantity_is_reported.
+
+(** non-vacuity: ExModel (well formed, cache built: C02b_nonvacuous) without its parameter 1, its variable 3, its
+    data set 14: each is named by a remaining component, and the payloads are exactly the components naming it,
+    in element order *)
+Example C02_removed_base_nonvacuous :
+  WF ex_model
+  /\ is_base BPar 1%N ex_model /\ In (6%N, CFn 6%N [1%N]) (to_sort (remove_base BPar 1%N ex_model))
+  /\ create_cache FnLib.fsem FnLib.fsemN gen_sort_facts (remove_base BPar 1%N ex_model)
+     = Err (EMissing [(4%N, [1%N]); (2%N, [1%N]); (6%N, [1%N])])
+  /\ is_base BVar 3%N ex_model /\ In (8%N, CFn 4%N [7%N; 3%N]) (to_sort (remove_base BVar 3%N ex_model))
+  /\ create_cache FnLib.fsem FnLib.fsemN gen_sort_facts (remove_base BVar 3%N ex_model)
+     = Err (EMissing [(4%N, [3%N]); (8%N, [3%N]); (15%N, [3%N]); (10%N, [3%N]); (11%N, [3%N])])
+  /\ is_base BDat 14%N ex_model /\ In (15%N, CFn 2%N [14%N; 3%N]) (to_sort (remove_base BDat 14%N ex_model))
+  /\ create_cache FnLib.fsem FnLib.fsemN gen_sort_facts (remove_base BDat 14%N ex_model)
+     = Err (EMissing [(15%N, [14%N])]).
+Proof.
+  split; [exact ex_model_WF|].
+  repeat split; vm_compute; try reflexivity; tauto.
+Qed.
+Print Assumptions C02_removed_base_nonvacuous.
